@@ -75,10 +75,11 @@ func zzH06_pushIterators() {
 	if generic {
 		which = zzChoice("which", 3)
 	}
-	known := zzAnd(generic, zzNot(frozen))
+	// (the generic Elements/Entries path used to lock at creation: fixed in /repo, see known_findings.json)
+	_ = generic
 	// obtaining the sequence takes no lock: only ranging over it does
 	if which <= 0 {
-		zzAssertExcept(*k.counter() == c0, "C06.push.lock_only_while_ranging", known)
+		zzAssert(*k.counter() == c0, "C06.push.lock_only_while_ranging")
 	}
 
 	at := zzU8("at")
@@ -119,10 +120,10 @@ func zzH06_pushIterators() {
 	// an iter.Seq may be ranged over again
 	_, lockOK2, _ := run()
 	if which < 0 || which == 1 {
-		zzAssertExcept(lockOK2, "C06.push.rerange_locked", known)
+		zzAssert(lockOK2, "C06.push.rerange_locked")
 	}
 	if which < 0 || which == 2 {
-		zzAssertExcept(*k.counter() == c0, "C06.push.rerange_unlocked", known)
+		zzAssert(*k.counter() == c0, "C06.push.rerange_unlocked")
 	}
 	zzAssert(thread.CallStackDepth() == 0, "C06.push.stack")
 	zzReach("end")
